@@ -26,6 +26,7 @@ EXPLANATION = (
     "inputs from (recording a fresher version would keep a consumer that ran on a default from ever re-running with the upstream value). (R7) the DEFAULT source: a function node's defaults table is keyed through the forward rename map (current names), has/get_default_for read that table, and the map builder applies the renames of one with_inputs call in parallel (the per-batch loop never writes the map it looks up). R1 also requires that the table BOUND values are resolved from is complete: the merged mapping starts as an unfiltered copy of the graph's own bindings and nothing is removed from it (scope narrowing by select/entry points never hides a binding from a node that still runs). R3 also requires the staleness test to compare each input's current version with the version recorded for that same input; (R8) the function executors rebind the function's result only when it is the coroutine of an async node function (awaited) or under the node's declared generator mode — never under a test on what kind of object the value happens to be."
     " R3 also requires that a node without an execution record always needs execution (under 'node.name not in state.node_executions' every reachable return of the needs-execution test is the constant True): a value supplied for its output does not stand in for it."
     " R1 also requires that every entry of the dict a node's inputs are collected into comes from the resolver call for that node and parameter (no memo shared between nodes)."
+    " R5 also requires that result filtering recognises an ordering signal by identity with the sentinel only (followed through the helpers the sentinel is handed to); R8 also requires that a declared generator is drained on every path before the outputs are wrapped."
 )
 NOT_DECIDED = "That returned values equal the reference evaluation; that edges are inferred correctly from names; exactly-once execution."
 
